@@ -208,6 +208,15 @@ class StorageRunner:
             recs.append((oid, r))
         return verdict, recs
 
+    def make_data(self, oid, pad, new):
+        return records.make_record(self.new_uid(), pad=pad)
+
+    def can_stale(self, oid):
+        return True
+
+    def after_commit(self, txn):
+        """hook: model transaction just committed (may adjust its records)"""
+
     def undo_candidates(self):
         return [x for x in reversed(self.model.txns)]
 
@@ -277,11 +286,28 @@ class StorageRunner:
         try:
             self.storage.pack(t, referencesf, gc=bool(gc))
             self.labels.add('pack-gc' if gc else 'pack')
+            import time as _t
+            from persistent.TimeStamp import TimeStamp
+            # which transactions did the pack rewrite?  read their status back from the iterator
+            status = {}
+            it = self.storage.iterator()
+            for rt in it:
+                status[rt.tid] = rt.status
+            getattr(it, 'close', lambda: None)()
+            for txn in self.model.txns:
+                if status.get(txn.tid, 'p') != txn.status:
+                    txn.status = 'p'
         except FileStorageError:
             self.labels.add('pack-refused')
-        except PackError:
+        except (PackError, AssertionError) as e:
             # e.g. gc=False and an undo record after the pack time pointing to a non-current
-            # revision before it: the pack is refused, the database stays as it was
+            # revision before it (PackError 'Invalid backpointer transaction id', or the
+            # 'tlen == th.tlen' assertion in copyOne when the record must be expanded): the pack
+            # fails, the database must stay as it was (checked by the callers' oracles)
+            if isinstance(e, AssertionError):
+                import traceback
+                if 'fspack.py' not in ''.join(traceback.format_tb(e.__traceback__)[-1:]):
+                    raise
             self.labels.add('pack-failed')
         except ValueError:
             self.labels.add('pack-refused')      # MappingStorage: already packed later
@@ -344,6 +370,7 @@ class StorageRunner:
                 self.labels.add('abort-raised')
 
     packed = False
+    diverged = False
     can_undo = False
     skip_uncreated = False
 
@@ -385,7 +412,7 @@ class StorageRunner:
             kind = r[0]
             if kind == 'new' or (kind in ('upd', 'stale', 'del') and not self.oids):
                 oid = self.alloc()
-                data = records.make_record(self.new_uid(), pad=r[-1] if kind in ('new', 'upd') else 0)
+                data = self.make_data(oid, r[-1] if kind in ('new', 'upd') else 0, True)
                 s.store(oid, Z64, data, '', t)
                 written.append((oid, data))
                 pending[oid] = data
@@ -394,14 +421,14 @@ class StorageRunner:
                 oid = self.pick_oid(r[1])
                 if oid in pending or (self.skip_uncreated and self.model.current(oid)[1] is None):
                     continue
-                data = records.make_record(self.new_uid(), pad=r[2])
+                data = self.make_data(oid, r[2], False)
                 s.store(oid, self.cur_serial(oid), data, '', t)
                 written.append((oid, data))
                 pending[oid] = data
             elif kind == 'stale':
                 oid = self.pick_oid(r[1])
                 revs = self.model.revisions(oid)
-                if len(revs) < 2 or oid in pending or revs[-1][1] is None:
+                if len(revs) < 2 or oid in pending or revs[-1][1] is None or not self.can_stale(oid):
                     continue        # (writing to an un-created object is outside the callers' domain)
                 stale = revs[max(0, len(revs) - 1 - max(1, r[2]))][0]
                 data = records.make_record(self.new_uid())
@@ -434,6 +461,8 @@ class StorageRunner:
                     continue
                 target = cands[r[1] % len(cands)]
                 verdict, urecs = self.plan_undo(target, pending)
+                if getattr(target, 'maybe_packed', False) and verdict == 'ok':
+                    verdict = 'either'      # a pack that freed nothing leaves the transaction undoable
                 tid64 = base64.encodebytes(target.tid).rstrip()
                 try:
                     s.undo(tid64, t)
@@ -444,7 +473,14 @@ class StorageRunner:
                     self.labels.add('undo-refused')
                     failed = True
                     break
-                if verdict == 'error' and not self.packed:
+                if verdict == 'error' and self.packed and target.status == ' ':
+                    # after a pack the pre-state pointers may have been re-linked: the history model
+                    # no longer predicts undo (C07's twin oracle covers pack+undo); stop following
+                    self.diverged = True
+                    self.labels.add('post-pack-undo-divergence')
+                    failed = True
+                    break
+                if verdict == 'error':
                     self.fail('undo', 'accepted', 'undo of %r accepted but model says UndoError'
                               % (target.tid,))
                     failed = True
@@ -452,8 +488,12 @@ class StorageRunner:
                 for oid, data in urecs:
                     written.append((oid, data))
                     pending[oid] = data
+                if is_undo:
+                    self.labels.add('multi-undo')
                 is_undo = True
                 self.labels.add('undo')
+                if any(rv[0] > target.tid for oid in target.last_wins() for rv in self.model.revisions(oid)):
+                    self.labels.add('undo-with-later-revision')
                 if target.kind == 'undo':
                     self.labels.add('undo-of-undo')
                 if any(d is None for _, d in urecs):
@@ -491,7 +531,9 @@ class StorageRunner:
                       'new tid %r after last %r' % (tid, before_last))
         for oid in new_oids:
             self.oids.append(oid)
-        self.model.add(Txn(tid, ' ', user, desc, ext, written, 'undo' if is_undo else 'store'))
+        txn = Txn(tid, ' ', user, desc, ext, written, 'undo' if is_undo else 'store')
+        self.after_commit(txn)
+        self.model.add(txn)
         self.committed += 1
         if not written:
             self.labels.add('empty-txn')
